@@ -341,6 +341,31 @@ _add('C16', 'DeeprobModel.Props.C16Sample', 'Deeprob.RatSample',
      ['ratspn_pass_is_topdown', 'ratspn_sample_exact', 'ratspn_sample_eq_cond', 'ratspn_sample_sums_to_one', 'ratspn_sample_law', 'ratspn_sample_law_normalised',
       'ratspn_sample_rowlaw', 'ratspn_sample_law_anyclass', 'ratspn_sample_contract', 'ratspn_mpe_is_descent', 'ratspn_mpe_contract', 'mpe_descent_not_maximal'], [])
 
+# translator wave 3 (structural fragments of inference, learners, cnet evaluation, moments, facade, io, EM responsibilities)
+_S3 = 'Deeprob.Struct3'
+_INF = ['sum_likelihood_as_coded', 'product_likelihood_as_coded', 'node_likelihood_as_coded', 'eval_sum_as_coded', 'eval_prod_as_coded', 'evalNode_inner_as_coded',
+        'evalForward_children_as_coded', 'sum_log_likelihood_as_coded', 'product_log_likelihood_as_coded', 'node_log_likelihood_as_coded', 'node_log_likelihood_sum',
+        'node_log_likelihood_prod', 'bernoulli_likelihood_as_coded', 'categorical_likelihood_as_coded', 'bernoulli_log_likelihood_as_coded', 'categorical_log_likelihood_as_coded']
+_INFF = ['node.Sum.likelihood', 'node.Product.likelihood', 'node.Sum.log_likelihood', 'node.Product.log_likelihood', 'inference.node_likelihood',
+         'inference.node_log_likelihood', 'evaluation.eval_forward', 'leaf.Bernoulli.likelihood', 'leaf.Bernoulli.log_likelihood', 'leaf.Categorical.likelihood',
+         'leaf.Categorical.log_likelihood']
+for _p in ('C01', 'C02'):
+    _add(_p, _O + 'Struct3Inference', _S3, _INF, _INFF)
+_LRN = ['unique_eq_uniqSorted', 'rowsWhere_eq_pick', 'slicesOf_as_coded', 'weightsOf_as_coded', 'colScopes_as_coded', 'task_defaults_as_coded', 'learn_loop_as_coded',
+        'requeue_side_as_coded', 'single_as_coded', 'step_splitRows_as_coded', 'step_splitCols_as_coded', 'step_remFeatures_as_coded']
+_LRNF = ['rows.split_rows_clusters', 'cols.split_cols_clusters', 'learnspn.Task', 'learnspn.loop', 'learnspn.SPLIT_ROWS', 'learnspn.SPLIT_COLS', 'learnspn.CREATE_LEAF',
+         'learnspn.SPLIT_NAIVE', 'learnspn.REM_FEATURES']
+for _p in ('C05', 'C04'):
+    _add(_p, _O + 'Struct3Learn', _S3, _LRN, _LRNF)
+_add('C18', _O + 'Struct3Cnet', _S3, ['cnetRun_or_as_coded', 'cnetRun_leaf_as_coded', 'cnetBatch_init_as_coded', 'cols_aligned'], ['cnet.log_likelihood'])
+_add('C19', _O + 'Struct3Moments', _S3, ['leaf_moment_as_coded', 'moment_inner_as_coded', 'momNode_as_coded', 'momentApi_as_coded'], ['moments.moment', 'moments.leaf_moment'])
+_add('C20', _O + 'Struct3Posterior', _S3, ['predict_log_proba_as_coded', 'predict_proba_as_coded', 'predict_as_coded'],
+     ['sklearn.predict_log_proba', 'sklearn.predict_proba', 'sklearn.predict'])
+_add('C13', _O + 'Struct3Io', _S3, ['encodeNode_as_coded', 'nodeEdges_as_coded', 'place_as_coded', 'decode_roles_as_coded'], ['io.spn_to_digraph', 'io.digraph_to_spn'])
+_add('C14', _O + 'Struct3Em', _S3, ['resp_entry_as_coded', 'respSum_as_coded', 'respLeaf_as_coded'], ['em.responsibilities'])
+for _p in ('C01', 'C02', 'C19'):
+    PROPS[_p]['modules'].append(_O + 'Struct3GenRat') if _O + 'Struct3GenRat' not in PROPS[_p]['modules'] else None
+
 # net-level prune / marginalize theorems (wave 2)
 PROPS['C09']['modules'] += ['DeeprobModel.Props.C09NetMore', 'DeeprobModel.Props.C09NetKahn']
 PROPS['C09']['theorems'] += ['Deeprob.pruneNet_normal_form', 'Deeprob.pruneNet_valid', 'Deeprob.pruneNet_checkSpn', 'Deeprob.pruneNet_fix',
